@@ -123,7 +123,7 @@ func ruleC01(r *Report) {
 	r.Rule("C01.validate-result", "the signature validator succeeds only under the nil edge of dsig Validate (or by delegating to the configured SignatureVerifier hook); 'not present' is returned only when no Signature child exists", 2)
 	r.Rule("C01.roots", "trusted roots derive only from SP configuration: signing-use (or unspecified-use) KeyDescriptors of IDPMetadata, the fingerprint-matched certificate, or the pinned certificate", 5)
 	r.Rule("C01.nsmatch", "the namespace-aware finder returns a child only if both its tag and its resolved namespace equal the requested ones", 1)
-	r.Rule("C01.xrv", "every parse of peer-provided bytes on the consuming paths is dominated by the nil edge of the round-trip validator on the same bytes (own serialisations exempt by provenance)", 9)
+	r.Rule("C01.xrv", "every parse of peer-provided bytes on the consuming paths is dominated by the nil edge of the round-trip validator on the same bytes (own serialisations exempt by provenance)", 6)
 	r.Rule("C01.samepath", "decrypted assertions reach the same assertion parser with the caller's own request IDs, time and signature token", 2)
 
 	checkSigToken(r, m, sr)
@@ -926,6 +926,15 @@ func checkXRV(r *Report, sc *Scope, rule string, fns []*ssa.Function) {
 						}
 					}
 				}
+				if !ok2 {
+					// a helper of an unexported function: every caller validated the bytes it passes
+					if prm, isP := bytesV.(*ssa.Parameter); isP && (fn.Object() == nil || !fn.Object().Exported()) && fn.Parent() == nil {
+						if callersValidated(p, a, fn, prm) {
+							r.OK(rule, cons, p.InstrPos(in), "every caller passes bytes it has put through the round-trip validator (nil edge) first")
+							continue
+						}
+					}
+				}
 				r.Check(ok2, rule, cons, p.InstrPos(in), "dominated by the nil edge of the round-trip validator on the same bytes", "peer bytes are parsed without (or not under the success of) round-trip validation of the same bytes")
 			}
 		}
@@ -996,3 +1005,42 @@ func ownSerialisation(p *Prog, v ssa.Value, depth int) string {
 var _ = sort.Strings
 
 func constantInt(n int64) constant.Value { return constant.MakeInt64(n) }
+
+// callersValidated: at every static call site of fn the argument bound to prm was validated by the
+// round-trip validator (nil edge implied at the call).
+func callersValidated(p *Prog, a *Analysis, fn *ssa.Function, prm *ssa.Parameter) bool {
+	idx := -1
+	for i, q := range fn.Params {
+		if q == prm {
+			idx = i
+		}
+	}
+	sites := p.StaticCallersOf(fn)
+	if idx < 0 || len(sites) == 0 {
+		return false
+	}
+	B := a.B
+	for _, cs := range sites {
+		cfc := a.Ctx(cs.Caller)
+		cfc.ensureConds()
+		blk := cs.Instr.(ssa.Instruction).Block()
+		arg := cs.Instr.Common().Args[idx]
+		want := cfc.AP(arg)
+		ok := false
+		for _, name := range B.Support(cfc.Cond(blk)) {
+			ai := a.AtomIn(cs.Caller, name)
+			if ai == nil || ai.Kind != "isnil" || !strings.Contains(name, "xrv.Validate#") || !cfc.Implied(blk, B.Var(name)) {
+				continue
+			}
+			if call, okc := ai.Vals[0].(*ssa.Call); okc && len(call.Call.Args) == 1 {
+				if wrapped := readerBytes(call.Call.Args[0]); wrapped != nil && cfc.AP(wrapped) == want {
+					ok = true
+				}
+			}
+		}
+		if !ok {
+			return false
+		}
+	}
+	return true
+}
